@@ -214,6 +214,18 @@ def rule_d(ctx, ix):
             ok = any(call_name(x) == 'remove_subset_group' for x in calls_in(undo.node))
             snap = any(isinstance(st, ast.Assign) and 'subset_groups' in unparse(st.value) and unparse(st.targets[0]).startswith(do.self_name + '.')
                        for st in walk_no_nested(do.node))
+            from ..util import guard_chain as _gc
+            pm_u = parent_map(undo.node)
+            member = True
+            for x in calls_in(undo.node):
+                if call_name(x) == 'remove_subset_group':
+                    tests = [unparse(g.test) for g, br in _gc(pm_u, x, undo.node) if isinstance(g, ast.If)]
+                    member = any(' not in ' in t and 'old_' in t for t in tests)
+            ctx.ob(R, undo.construct + ' membership', 'the groups to remove are those not in the snapshot (by membership, not by position)',
+                   (not ok) or member,
+                   detail='%s.undo removes groups without testing membership in the snapshot taken by do(): if the collection\'s groups '
+                          'changed in between (an older group removed), the wrong groups are removed or the created one survives' % c.name,
+                   where=undo.where)
             ctx.ob(R, undo.construct, 'undo removes the subset groups the command created', ok and snap,
                    detail='applying a selection can create a subset group (EditSubsetMode._combine_data calls new_subset_group), '
                           'but %s.undo never removes it (do records the groups: %s; undo calls remove_subset_group: %s): after '
